@@ -202,6 +202,11 @@ func (x *Exec) merge(states []*State) *State {
 		for _, s := range live {
 			if v, ok := s.vars[k]; ok {
 				x.u.fact("(=> " + s.pc + " (= " + n + " " + v.T + "))")
+			} else if tv, isVar := k.(*types.Var); isVar && !x.eng.isCellVar(tv) {
+				// not declared on this path: reads (only possible from contracts) see the zero value
+				if z := x.zeroVal(tv.Type()); z.S == any.S {
+					x.u.fact("(=> " + s.pc + " (= " + n + " " + z.T + "))")
+				}
 			}
 		}
 		out.vars[k] = Val{T: n, S: any.S, Ty: any.Ty}
